@@ -272,6 +272,11 @@ func (e *Exec) scanCallMods(fn *ssa.Function, c *ssa.CallCommon, ms *modSet, see
 			return
 		}
 	}
+	if fnKey(callee) == "sort.Slice" {
+		// element components of every slice type may change: conservatively everything of sort-able kinds
+		ms.all = true
+		return
+	}
 	if fnKey(callee) == "fmt.Fprint" {
 		ms.comps["G.ghost_nwrites"] = arraySort(SInt, SInt)
 		return
@@ -285,7 +290,7 @@ func (e *Exec) scanCallMods(fn *ssa.Function, c *ssa.CallCommon, ms *modSet, see
 
 func isIntrinsic(nm string) bool {
 	switch nm {
-	case "specAssert", "specAssume", "vcForall", "vcExists", "vcTrigger1", "vcTrigger2", "vcTrigger3", "vcOldBegin", "vcOld", "vcMod1", "vcModElems", "vcModMap", "vcFresh", "vcByteStr", "vcModGhost", "vcSameSlice", "vcElemsOf", "vcOff", "vcSeqAt", "vcIte", "vcMapSeq":
+	case "specAssert", "specAssume", "vcForall", "vcExists", "vcTrigger1", "vcTrigger2", "vcTrigger3", "vcOldBegin", "vcOld", "vcMod1", "vcModElems", "vcModMap", "vcFresh", "vcByteStr", "vcModGhost", "vcSameSlice", "vcElemsOf", "vcOff", "vcSeqAt", "vcIte", "vcMapSeq", "vcHas", "vcIn", "vcSameMap":
 		return true
 	}
 	return false
@@ -306,6 +311,21 @@ func (e *Exec) namedLocal(fr *frame, st *State, name string, li *loopInfo) (Valu
 			}
 			if n, ok := in.(*ssa.Next); ok {
 				if r, ok2 := n.Iter.(*ssa.Range); ok2 && n.IsString {
+					return st.cells[fr.iterPos[r]], true
+				}
+				if r, ok2 := n.Iter.(*ssa.Range); ok2 && !n.IsString {
+					if cc := fr.iterCount[r]; cc != nil {
+						return st.cells[cc], true
+					}
+				}
+			}
+		}
+		return nil, false
+	}
+	if name == "rvisited" {
+		for _, in := range li.head.Instrs {
+			if n, ok := in.(*ssa.Next); ok && !n.IsString {
+				if r, ok2 := n.Iter.(*ssa.Range); ok2 {
 					return st.cells[fr.iterPos[r]], true
 				}
 			}
@@ -437,6 +457,11 @@ func (e *Exec) loopHead(fr *frame, st *State, li *loopInfo, c *Contract, setVari
 		}
 	}
 	for r := range ms.iters {
+		if cc := fr.iterCount[r]; cc != nil {
+			nv := e.smt.fresh("itercount", SInt)
+			st.cells[cc] = nv
+			e.assume(st, tLe(tInt(0), nv))
+		}
 		if cell := fr.iterPos[r]; cell != nil {
 			cur := st.cells[cell].(Term)
 			nv := e.smt.fresh("iter", cur.Sort)
